@@ -225,6 +225,8 @@ where
     );
     let want = RunStats::from(prog.view());
     ensure!(stats_eq(&stats, &want), "progress-stats-differ", "HMC::run_progress stats {:?} vs RunStats::from(draws) {:?}", stats, want);
+    let (pa, pb) = (to_vec(&a.positions), to_vec(&b.positions));
+    ensure!(pa.iter().zip(&pb).all(|(u, v)| u.to_bits() == v.to_bits()), "progress-final-state", "after HMC::run_progress the sampler is not where run leaves its twin");
     cov.class("hmc");
     Ok(())
 }
@@ -267,6 +269,29 @@ where
     }
     let want = RunStats::from(prog.view());
     ensure!(stats_eq(&stats, &want), "progress-stats-differ", "NUTS::run_progress stats {:?} vs RunStats::from(draws) {:?}", stats, want);
+    // the sampler itself (not a copy of it) was advanced: same counters, step sizes and positions
+    // as the twin that used run
+    for (i, (x, y)) in a.verif_chains().iter().zip(b.verif_chains().iter()).enumerate() {
+        let (sa, sb) = (x.verif_state(), y.verif_state());
+        let f = |v: T| num_traits::ToPrimitive::to_f64(&v).unwrap();
+        ensure!(
+            sa.0 == sb.0 && f(sa.1).to_bits() == f(sb.1).to_bits() && f(sa.2).to_bits() == f(sb.2).to_bits(),
+            "progress-final-state",
+            "after NUTS::run_progress chain {i} has (m, eps, eps_bar) = ({}, {}, {}), after run the twin has ({}, {}, {})",
+            sb.0,
+            f(sb.1),
+            f(sb.2),
+            sa.0,
+            f(sa.1),
+            f(sa.2)
+        );
+        let (pa, pb) = (to_vec(&x.position), to_vec(&y.position));
+        ensure!(pa.iter().zip(&pb).all(|(u, v)| u.to_bits() == v.to_bits()), "progress-final-state", "after NUTS::run_progress chain {i} is at {:?}, the twin at {:?}", pb, pa);
+    }
+    // and a following run continues from there
+    let next_a = tensor_to_array(&a.run(2, 0));
+    let next_b = tensor_to_array(&b.run(2, 0));
+    ensure!(next_a.iter().zip(next_b.iter()).all(|(u, v)| u.to_bits() == v.to_bits()), "progress-final-state", "a run that follows NUTS::run_progress does not continue where a run that follows run continues");
     cov.class("nuts");
     Ok(())
 }
@@ -338,6 +363,7 @@ fn check_twin(c: &TwinCase, cov: &mut Cov) -> CheckResult {
 // ---------------------------------------------------------------------------------------------
 
 struct DroppingChain {
+    per_step: Duration,
     count: u64,
     state: Vec<f64>,
     drop_at: Option<u64>,
@@ -346,6 +372,9 @@ struct DroppingChain {
 impl MarkovChain<f64> for DroppingChain {
     fn step(&mut self) -> &Vec<f64> {
         self.count += 1;
+        if !self.per_step.is_zero() {
+            std::thread::sleep(self.per_step);
+        }
         if Some(self.count) == self.drop_at {
             // the reporter stops listening while the worker is running
             self.rx.lock().unwrap().take();
@@ -360,6 +389,9 @@ impl MarkovChain<f64> for DroppingChain {
 
 #[derive(Debug, Clone, Serialize, Deserialize)]
 pub struct DropCase {
+    /// total run time of the worker in ms (> 1000 ms makes it attempt periodic sends)
+    #[serde(default)]
+    pub slow_ms: u32,
     pub n_collect: usize,
     pub n_discard: usize,
     /// 0 dropped before the call, 1 during (at step `at`), 2 after (kept alive)
@@ -368,7 +400,7 @@ pub struct DropCase {
 }
 
 fn drop_strategy() -> BoxedStrategy<DropCase> {
-    bx((4usize..40, 0usize..20, 0u8..3, any::<u64>()).prop_map(|(n_collect, n_discard, mode, at)| DropCase { n_collect, n_discard, mode, at }))
+    bx((4usize..40, 0usize..20, 0u8..3, any::<u64>(), prop_oneof![60 => Just(0u32), 1 => 1300u32..2400]).prop_map(|(n_collect, n_discard, mode, at, slow_ms)| DropCase { slow_ms, n_collect, n_discard, mode, at }))
 }
 
 fn check_drop(c: &DropCase, cov: &mut Cov) -> CheckResult {
@@ -384,12 +416,14 @@ fn check_drop(c: &DropCase, cov: &mut Cov) -> CheckResult {
         _ => None,
     };
     let mut chain = DroppingChain {
+        per_step: Duration::from_micros(c.slow_ms as u64 * 1000 / total),
         count: 0,
         state: SlowChain::value(7, 0),
         drop_at,
         rx: holder.clone(),
     };
     let mut twin = DroppingChain {
+        per_step: Duration::ZERO,
         count: 0,
         state: SlowChain::value(7, 0),
         drop_at: None,
@@ -409,6 +443,9 @@ fn check_drop(c: &DropCase, cov: &mut Cov) -> CheckResult {
     );
     ensure!(chain.count == total, "progress-transition-count", "worker performed {} transitions, expected {total}", chain.count);
     cov.class(["receiver-dropped-before", "receiver-dropped-during", "receiver-kept"][c.mode as usize]);
+    if c.slow_ms > 0 {
+        cov.class("worker-runs-longer-than-the-1s-send-period");
+    }
     if c.mode == 1 {
         cov.nontrivial_u64(fingerprint(c));
     }
